@@ -40,6 +40,38 @@ def _access_path(e: ast.AST) -> str:
     return unparse(e, 200)
 
 
+def check_accumulate(ctx: Ctx, f: Func, rule: str) -> int:
+    """`itertools.accumulate(S, lambda prefix, part: prefix + "." + part)`: every non-empty prefix of S, by construction -
+    provided S is the whole sequence of parts (not a slice) and the function appends the next part after a dot"""
+    rep = ctx.report
+    n = 0
+    for c in f.own_nodes():
+        if not (isinstance(c, ast.Call) and (ctx.prog.dotted(f, c.func) or unparse(c.func)).endswith("accumulate") and len(c.args) >= 2):
+            continue
+        n += 1
+        S, fn = c.args[0], c.args[1]
+        desc = f"`{unparse(c, 60)}` enumerates every non-empty prefix of {unparse(S)}"
+        wit = []
+        if isinstance(S, ast.Subscript):
+            wit.append(f"{f.loc(c)}: only the slice `{unparse(S)}` of the parts is accumulated")
+        ok_fn = False
+        if isinstance(fn, ast.Lambda) and len(fn.args.args) == 2:
+            a, b = fn.args.args[0].arg, fn.args.args[1].arg
+            body = fn.body
+            # a + "." + b   /   ".".join((a, b))   /   f"{a}.{b}"
+            txt = unparse(body, 100).replace('"', "'")
+            ok_fn = txt in (f"{a} + '.' + {b}", f"'.'.join(({a}, {b}))", f"'.'.join([{a}, {b}])", f"f'{{{a}}}.{{{b}}}'")
+        if not ok_fn:
+            wit.append(f"{f.loc(c)}: the accumulating function `{unparse(fn, 60)}` is not `prefix + '.' + part`")
+        if len(c.args) > 2 or any(k.arg == "initial" for k in c.keywords):
+            wit.append(f"{f.loc(c)}: an initial value is accumulated first")
+        if wit:
+            rep.bad(rule, f.qname, desc, f.loc(c), wit, "prefix-accumulate", what="the prefixes compared with the accepted packages are not the dotted prefixes of the path")
+        else:
+            rep.ok(rule, f.qname, desc, f.loc(c))
+    return n
+
+
 def check_prefix_loop(ctx: Ctx, f: Func, loop: ast.For, rule: str, required: bool) -> int:
     """index-domain lint for `for i in range(...)`: slices S[:i(+k)] inside the body must range over len(S)"""
     rep = ctx.report
@@ -130,6 +162,8 @@ def run(ctx: Ctx) -> None:
                         for g in n.generators:
                             fake = ast.For(target=g.target, iter=g.iter, body=[ast.Expr(value=n.elt)], orelse=[], lineno=getattr(n, "lineno", 0), col_offset=0)
                             n1 += check_prefix_loop(ctx, g_, fake, "C14.R1", True)
+    if n1 == 0:
+        n1 += check_accumulate(ctx, auth, "C14.R1")
     if n1 == 0:
         rep.unknown("C14.R1", auth.qname, "prefix enumeration idiom not recognised in the authorisation test", auth.loc())
     if ctx.tier == "thorough":
